@@ -23,7 +23,7 @@ from pyvc import loader, ops
 from pyvc.contracts import FnContract, Raises
 from pyvc.flow import dotted, ground_obligation
 from pyvc.symex import Executor
-from pyvc.values import NONE, VBool, VExc, VExt, VFunc, VStr, VTuple, VUnk, fresh_name
+from pyvc.values import NONE, VBool, VExc, VExt, VFunc, VInt, VRef, VStr, VTuple, VUnk, fresh_name
 from pyvc.verify import Maker
 
 from contracts import c15_own as O
@@ -65,6 +65,46 @@ class C15Executor(Executor):
             st.ghost["modattrs"] = a
             return [(st, NONE)]
         return self.havoc_call(st, "setattr", args, node)
+
+    # ---- module-level caches as abstract objects (sort "C15Cache"); what they hold is PUBLISHED (ghost set of heap refs)
+    def published(self, st):
+        return frozenset(st.ghost.get("published", ()))
+
+    def publish(self, st, ref):
+        st.ghost["published"] = self.published(st) | {ref}
+
+    def cached_object(self, st, what):
+        """Some object the cache held at entry: a list of unknown content, not fresh, published."""
+        from pyvc.state import HeapObj
+        ref = st.alloc(HeapObj("list", [VUnk(f"{what}[{i}]") for i in range(2)], None, False), self.refs)
+        self.publish(st, ref)
+        return VRef(ref)
+
+    def note_store(self, st, ref, node):
+        if ref in self.published(st) and self.loc(node) not in st.ghost.get("published_mutated", ()):
+            # frame condition: an object that is stored in / was read out of a module-level cache is never mutated
+            st.ghost["published_mutated"] = tuple(st.ghost.get("published_mutated", ())) + (self.loc(node),)
+        return super().note_store(st, ref, node)
+
+    def call_method(self, st, obj, name, args, kwargs, node):
+        if isinstance(obj, VRef) and obj.ref in self.published(st) and name in O.DEF_MUTATORS:
+            st.ghost["published_mutated"] = tuple(st.ghost.get("published_mutated", ())) + (self.loc(node),)
+        return super().call_method(st, obj, name, args, kwargs, node)
+
+    def store_index(self, st, base, idx, v, node):
+        if isinstance(base, VExt) and base.sort == "C15Cache":
+            if isinstance(v, VRef):
+                self.publish(st, v.ref)
+            st.ghost["cache_stores"] = tuple(st.ghost.get("cache_stores", ())) + ((idx, v),)
+            return [st]
+        return super().store_index(st, base, idx, v, node)
+
+    def b_len(self, st, args, kwargs, node):
+        if args and isinstance(args[0], VExt) and args[0].sort == "C15Cache":
+            n = z3.Int(fresh_name("cache_len"))
+            st.assume(n >= 0)
+            return [(st, VInt(n))]
+        return super().b_len(st, args, kwargs, node)
 
     def e_Yield(self, n, st):
         res = super().e_Yield(n, st)
@@ -154,6 +194,65 @@ def contracts(reg):
         raises=[Raises("BaseException", sub=True, when=lambda c: restored(c) if c.st is not None else z3.BoolVal(True),
                        label="exception thrown into the with-body / GeneratorExit: attributes restored before it propagates")],
         note="the generator behind @contextlib.contextmanager; with-protocol = body up to the yield, then the finally block",
+    ))
+    out.extend(cache_contracts(reg))
+    return out
+
+
+def cache_contracts(reg):
+    """`_get_round_keys` under a symbolic contract: the module-level OrderedDict is an abstract object whose values are
+    PUBLISHED heap objects (shared with later calls and other threads).  Obligations, on the real body:
+      * frame: no published object is mutated -- neither what a hit returns, nor what an eviction drops, nor the new entry after
+        it was stored (ExecutorC15.note_store);
+      * a miss stores under the key it looked up."""
+    from pyvc.verify import p_unk
+    out = []
+    reg.module_consts[(AESF, "_ROUND_KEY_CACHE")] = VExt("C15Cache")
+
+    def m_get(ex, st, obj, args, kwargs, node):
+        miss = st.fork()
+        st.ghost["lookups"] = tuple(st.ghost.get("lookups", ())) + (args[0],)
+        miss.ghost["lookups"] = tuple(miss.ghost.get("lookups", ())) + (args[0],)
+        return [(miss, args[1] if len(args) > 1 else NONE), (st, ex.cached_object(st, "cached"))]
+
+    def m_popitem(ex, st, obj, args, kwargs, node):
+        return [(st, VTuple([VUnk("evicted_key"), ex.cached_object(st, "evicted")]))]
+
+    def m_pop(ex, st, obj, args, kwargs, node):
+        return [(st, ex.cached_object(st, "popped"))]
+
+    reg.method_models[("C15Cache", "get")] = m_get
+    reg.method_models[("C15Cache", "popitem")] = m_popitem
+    reg.method_models[("C15Cache", "pop")] = m_pop
+    reg.method_models[("C15Cache", "move_to_end")] = lambda ex, st, o, a, k, n: [(st, NONE)]
+    reg.method_models[("C15Cache", "clear")] = lambda ex, st, o, a, k, n: [(st, NONE)]
+
+    def m_expand(ex, st, args, kwargs, node):
+        bad = st.fork()
+        ex.raise_in(bad, ex.mk_exc("ValueError"))
+        return [(st, ex.new_list(st, [VUnk(f"rk[{i}]") for i in range(2)]))]       # a fresh list of round keys
+
+    reg.ext_models["C15.expand_key"] = m_expand
+    reg.module_consts[(AESF, "_expand_key")] = VFunc("ext", "C15.expand_key")
+
+    def stored_under_looked_up_key(c):
+        stores = c.st.ghost.get("cache_stores", ())
+        looks = c.st.ghost.get("lookups", ())
+        ok = all(any(k is l for l in looks) or any(k is c.args[a] for a in c.args) for (k, _v) in stores)
+        return z3.BoolVal(bool(ok))
+
+    def not_mutated(c):
+        m = c.st.ghost.get("published_mutated", ()) if c.st is not None else ()
+        if m:
+            c.note = "mutates an object the cache holds / has handed out at " + ", ".join(m)
+        return z3.BoolVal(not m)
+
+    out.append(FnContract(
+        target=f"{AESF}::_get_round_keys", params=[("key", p_unk())],
+        ensures=[("objects-held-by-the-cache-are-not-mutated", not_mutated),
+                 ("a-miss-stores-under-the-key-it-looked-up", stored_under_looked_up_key)],
+        raises=[Raises("ValueError", when=not_mutated, label="only the key-length check of _expand_key, and nothing published was mutated before")],
+        note="cache object abstract; _expand_key assumed to return a fresh list or raise ValueError (its contract is C20's)",
     ))
     return out
 
@@ -274,8 +373,8 @@ def policy(repo, tier):
             q = e["fn"][1]
             k = per_fn.get(q, 0)
             per_fn[q] = k + 1
-            kd = O.deps(an, fn, e["key"], exclude_state=(x,))
-            vd = O.deps(an, fn, e["value"], exclude_state=(x,))
+            kd = O.deps(an, fn, e["key"])
+            vd = O.deps(an, fn, e["value"])          # incl. module state: a value computed from what the cache holds depends on history
             ok = vd <= kd
             h = hint(x, writer=q, accessors=accessors)
             # H3a: the stored value is computed from nothing but what the key is computed from (parameters and module state)
